@@ -4,6 +4,7 @@
    LIFO teardown runs; the finalizer of a service task performs its teardown action and then waits
    until the task (and its own context) has completely finished.  Used by C08.  Definitions only. *)
 From Coq Require Import List Bool Arith.
+From Asphalt Require Import Gen.Gen_service.
 Import ListNotations.
 
 Inductive action :=
@@ -70,12 +71,16 @@ Definition cancel_task (SV : list svc) (s : st) (sid : nat) : st * list obs :=
   | _ => (s, [])
   end.
 
-(* the finalizer's first half: act per teardown_action *)
+(* the finalizer's first half: act per teardown_action; the branches are those the translator read from
+   finalize_service_task on this run (Gen/Gen_service.v) *)
 Definition finalize_act (SV : list svc) (s : st) (sid : nat) : st * list obs :=
   match s_action (svc_of SV sid) with
-  | ACancel => cancel_task SV s sid
+  | ACancel => if svc_cancel_action_cancels then cancel_task SV s sid else (s, [])
   | ANone => (s, [])
-  | ACall true => let '(s', o) := cancel_task SV s sid in (s', ActionInvoked sid :: o)
+  | ACall true =>
+      (* the callable raised: fall back on cancellation (as read from the finalizer's handler on this run) *)
+      let '(s', o) := (if svc_fallback_cancel_when_action_raises then cancel_task SV s sid else (s, [])) in
+      (s', ActionInvoked sid :: o)
   | ACall false =>
       let s1 := St (own s) (regs s) (tasks s) (sid :: stopreq s) in
       match ts s sid with
@@ -109,7 +114,8 @@ Definition silent_owner (SV : list svc) (s : st) : option (st * list obs) :=
   | InTeardown stack (Some sid) =>
       match ts s sid with
       | TDone => Some (set_own s (InTeardown stack None), [])
-      | _ => None
+      | _ => if svc_waits_for_task then None      (* `await task_handle.wait_finished()` *)
+             else Some (set_own s (InTeardown stack None), [])
       end
   | _ => None
   end.
